@@ -634,7 +634,7 @@ fn history(ctx: &mut Ctx, feats: u64, nops: usize, errors: bool) {
                 let n = if scanout_state().0 { 6 } else { 3 }; let s = script(ctx, n);
                 let fa = errors && ctx.rng.chance(1, 12); op_change(&mut life, ctx, w, h, s, fa) }
             3..=4 => { let s = script(ctx, 2); op_flush(&mut life, ctx, s) }
-            5 if errors || !life.cursor_done => { let len = if ctx.rng.chance(1, 5) { *ctx.rng.pick(&[0usize, 1, 16383, 16385, 4096, 65536]) } else { 16384 };
+            5 if errors || !life.cursor_done || i % 3 == 0 => { let len = if ctx.rng.chance(1, 5) { *ctx.rng.pick(&[0usize, 1, 16383, 16385, 4096, 65536]) } else { 16384 };
                 let (x, y, hx, hy) = (ctx.rng.boundary(32) as u32, ctx.rng.boundary(32) as u32, ctx.rng.boundary(32) as u32, ctx.rng.boundary(32) as u32);
                 let s = script(ctx, 4); let fa = errors && ctx.rng.chance(1, 12); if len == 16384 { life.cursor_done = true; } op_setup_cursor(&mut life, ctx, len, x, y, hx, hy, s, fa) }
             5..=7 => { let (x, y) = (ctx.rng.boundary(32) as u32, ctx.rng.boundary(32) as u32); op_move(&mut life, ctx, x, y, vec![]) }
@@ -667,6 +667,9 @@ fn directed(ctx: &mut Ctx, feats: u64) {
     op_flush(&mut life, ctx, vec![]);
     op_setup_cursor(&mut life, ctx, 16384, 1, 2, 3, 4, vec![], false);
     op_move(&mut life, ctx, u32::MAX, 0, vec![]);
+    // a second cursor image: the first one's backing memory may only go once the resource has been given the new one
+    op_setup_cursor(&mut life, ctx, 16384, 9, 8, 7, 6, vec![], false);
+    op_move(&mut life, ctx, 5, 5, vec![]);
     op_setup_fb(&mut life, ctx, vec![]);
     op_flush(&mut life, ctx, vec![]);
     let (w, h) = pick_overflow(ctx); op_change(&mut life, ctx, w, h, vec![], false);
